@@ -881,6 +881,22 @@ func driverMain() int {
 
 // classifyCrash decides whether a dead worker was killed by a panic in library
 // code (a violation) or by harness trouble.
+// stdFrame: a frame of the Go runtime or standard library (the first element of
+// its package path has no dot and it is not the harness itself). A library
+// function spinning around strings.Index is still a library spin.
+func stdFrame(l string) bool {
+	first := l
+	if i := strings.Index(first, "/"); i >= 0 {
+		first = first[:i]
+	} else if i := strings.Index(first, "."); i >= 0 {
+		first = first[:i]
+	}
+	if first == "verifsim" || first == "main" || first == "" {
+		return false
+	}
+	return !strings.Contains(first, ".")
+}
+
 func classifyCrash(prop string, cur []byte, stderr, replayDir string) (ViolationOut, bool) {
 	rule := "panic"
 	idx := strings.Index(stderr, "panic: ")
@@ -929,7 +945,7 @@ func classifyCrash(prop string, cur []byte, stderr, replayDir string) (Violation
 				}
 				for _, l := range lines[1:] {
 					l = strings.TrimSpace(l)
-					if l == "" || strings.HasPrefix(l, "/") || strings.HasPrefix(l, "runtime.") || strings.HasPrefix(l, "internal/") || strings.HasPrefix(l, "goroutine ") {
+					if l == "" || strings.HasPrefix(l, "/") || strings.HasPrefix(l, "goroutine ") || strings.HasPrefix(l, "created by ") || stdFrame(l) {
 						continue
 					}
 					if libFrame(l) {
